@@ -18,7 +18,7 @@ TIME_RE = re.compile(r"\b(t|d)=([0-9a-f]+|nan)")
 
 class C15(Property):
     id = "C15"
-    # chain: C15Velocity ▸ C15ShiftLines ▸ C15Shift (▸ Lemmas/ShiftLaws) ▸ C15Map ▸ C15; all in namespace Rosu.C15
+    # C15Full imports C15Velocity and C15Ieee; chain: C15Velocity ▸ C15ShiftLines ▸ C15Shift (▸ Lemmas/ShiftLaws) ▸ C15Map ▸ C15; C15Ieee ▸ C15Map; all in namespace Rosu.C15
     lean_module = "RosuModel.Props.C15Full"
     theorem_modules = ['RosuModel.Props.C15Velocity', 'RosuModel.Props.C15Ieee']   # files whose top-level theorems are all audited
     namespace = "Rosu.C15"
@@ -47,12 +47,19 @@ class C15(Property):
                          "beatmap_fold_shift", "beatmap_finish_rel", "beatmap_shift_invariant_partial", "shift_invariant_Z", "zBody_shift",
                          # Props/C15Velocity.lean (worded formula, exact rationals)
                          "sClamp", "inv_clamp_osu", "inv_clamp_taiko", "clampedSV_of_range", "precisionAdjusted_rat",
-                         "velocity_worded", "difficultyPoint_new_range", "slider_finalized_worded"]
+                         "velocity_worded", "difficultyPoint_new_range", "slider_finalized_worded",
+                         # Props/C15Ieee.lean: the order hypotheses of first_after_break_new_combo discharged for IEEE doubles
+                         "le_lt_ieee", "le_trans_ieee", "first_after_break_new_combo_float", "pairwise_of_consecutive_float",
+                         "pairwise_of_consecutive_le_float", "first_after_break_new_combo_decoded_float"]
     partial_theorems = {
         "first_after_break_new_combo": "proved under the hypothesis that the breaks are listed in non-decreasing end-time order (pairwise ¬ b₂.end < b₁.end; "
             "pairwise_of_consecutive derives it from the consecutive form) and one order fact about `<` on the values involved (x ≤ y < z → x < z on a set N containing "
-            "all break ends and object starts — for IEEE the non-NaN values; taken as a hypothesis, instantiated on the integer toy scalar): for EVERY break the first "
-            "object after it that is not a hold has new_combo = true, at the level of post_process_breaks and of the decoded HitObjects. Without the order hypothesis "
+            "all break ends and object starts — taken as a hypothesis in the generic form, instantiated on the integer toy scalar): for EVERY break the first "
+            "object after it that is not a hold has new_combo = true, at the level of post_process_breaks and of the decoded HitObjects. For the driver's Float the order fact is now a theorem with N := the "
+            "non-NaN values (Props/C15Ieee.lean: le_lt_ieee, le_trans_ieee from the IEEE order theory of Lemmas/FloatModelCompare.lean — Lean 4.33's Float is a structure over the logical model Float.Model and `<` "
+            "reduces in the kernel), so first_after_break_new_combo_float / first_after_break_new_combo_decoded_float hold for IEEE doubles with only the hypotheses the property needs: break ends and object "
+            "starts are not NaN (parsed times never are: C11.floatParse_not_nan) and the breaks are in non-decreasing end-time order (pairwise_of_consecutive_float; pairwise_of_consecutive_le_float from the "
+            "natural reading b₁.end <= b₂.end of consecutive breaks). Without the order hypothesis "
             "the clause is false: first_after_break_unconditional_false proves the negation on breaks (7464,8164),(16954,17054),(3902,3902) with an object at 4601 "
             "(finding F14), so on unordered breaks the clause is evaluated by the oracle and classified as the known finding",
         "finalize_perm": "the decoded list is related position by position (ObjSim) to the stably sorted parsed list: same start time, same kind and line-level fields, "
@@ -66,7 +73,8 @@ class C15(Property):
             "give related state updates and the same accept/reject result; spinner/hold durations are end−start and hence unshifted; (3) shift_invariant_partial / "
             "beatmap_shift_invariant_partial — fold over any list of (section, line) pairs from the initial state, then finish. Instantiated for every k on the exact integer scalar "
             "Z (zShiftLaws, shift_invariant_Z) with worked examples on real text lines (zBody_shift). NOT proved: shift_invariant_statement for the Float instance (would need "
-            "t + k exact for all times involved and exactness of every derived sum — IEEE rounding reasoning; e.g. −0 + 0 changes the total_cmp key), and the step from decimal text "
+            "t + k exact for all times involved and exactness of every derived sum — IEEE rounding reasoning on fractional times; e.g. −0 + 0 changes the total_cmp key, which is a kernel-checked refutation: "
+            "Rosu.IeeeFalse.shiftLaws_zero_float_false : ¬ ShiftLaws Float 0 in Props/IeeeFalse.lean, audited under C02 — so even for k = 0 the theorems under ShiftLaws are vacuous on the IEEE instance), and the step from decimal text "
             "to 'this field parses to t + k' (number codec), and the framing loop (lines are taken as already tagged with their section). That regime is evaluated on the "
             "implementation by decoding pairs of files whose times differ by a whole number of milliseconds",
         "velocity/duration": "slider_finalized is the closed form as the code evaluates it (IEEE, any Scalar). velocity_worded / slider_finalized_worded prove, in exact rational "
@@ -79,12 +87,12 @@ class C15(Property):
                   "precision-adjusted beat length with the per-mode clamp of the SV multiplier, duration = spans·dist/velocity, node samples resolved at node time + 5 ms and object "
                   "samples at end + 5 ms; SamplePoint::apply takes volume 0 / unspecified bank / custom index 0 from the point and gives file samples the fixed treatment; start times "
                   "and object count are untouched. Props/C15Map.lean adds the user-level clauses: with breaks listed in end-time order the first non-hold object after EACH break has "
-                  "new_combo = true (and the negation of the unconditional clause on a concrete witness: F14); SamplePoint::apply is idempotent, its fixed points are characterised "
+                  "new_combo = true (for IEEE doubles with the order fact discharged: first_after_break_new_combo_float, Props/C15Ieee.lean; and the negation of the unconditional clause on a concrete witness: F14); SamplePoint::apply is idempotent, its fixed points are characterised "
                   "exactly, and a sample resolved against a point with positive volume / non-zero custom index is a fixed point of every sample point (why decode∘encode∘decode is "
                   "stable on samples); the decoded object list is position by position the stably sorted parsed list up to new-combo / velocity / sample defaults (finalize_perm). "
                   "Shift invariance is proved under an explicit law structure on the scalar (ShiftLaws: + k monotone for total_cmp and <, cancels in differences, commutes with adding a "
                   "duration) at three levels — control-point lookups/adds, the finalisers (finish_shift), the line parsers and their fold (shift_invariant_partial) — and holds "
-                  "outright on the exact integer scalar; it is not a theorem about IEEE floats. The velocity closed form equals the worded formula in exact rational arithmetic "
+                  "outright on the exact integer scalar; it is not a theorem about IEEE floats (ShiftLaws Float 0 is refuted in the kernel, Props/IeeeFalse.lean). The velocity closed form equals the worded formula in exact rational arithmetic "
                   "(velocity_worded). Model tied to the code by the whole-file `dec` differential (all fields by bits); the property is re-derived on the implementation "
                   "from its own pre-finalisation state (harness `c15`) and by decoding time-shifted pairs of files (`decshift`).")
     technique = "Lean 4 proof (mergeSort stability, pointer-walk invariant, closed forms; law-dependent shift invariance with an exact integer instance; worded velocity formula over Rat) + whole-file differential + closed-form / shift oracles on the implementation"
@@ -92,6 +100,8 @@ class C15(Property):
         "Lean 4.33.0 kernel; axioms ⊆ {propext, Classical.choice, Quot.sound} per #print axioms",
         "hand-written models Model/{Finalize,Curve,ControlPoints,Decoders}.lean tied to /repo by the `dec` differential of this run",
         "Rust std: slice::sort_by is a stable sort (modelled by core List.mergeSort, proved stable)",
+        "the *_float theorems are about Lean 4.33's logical float model Float.Model (Float is a structure over it, not opaque); that the compiled @[extern] C operations agree with that model is part of Lean's own "
+        "trusted code base and is compared with Rust bit for bit (codec requests fop64 / fop32, casts; every `dec` request of this run)",
     ]
     assumptions = ["shifted pairs use integer times and integer shifts (the property's domain); all sums stay far below 2^53"]
     nontrivial_rule = "generated maps with sorted/unsorted objects, breaks around objects, control points around object times; non-trivial = at least one slider or break present"
